@@ -81,11 +81,37 @@ def rule_validate_before_mutate(ctx, rule="C07-order"):
                             lt = True
                 ctx.ob(rule, fn, "idx<len-dominates:" + _eord(b, eb, effs), lt, line=b.line(eb), how="idx < len(self) edge dominates %s" % name,
                        detail="%s is reachable without `idx < self.len()` having passed (String::remove panics at idx == len; here the code goes on, unshares, and reads past the text)" % name)
+        # (c) the checks are not skippable: every block that builds the Ok result is dominated by the
+        # passing edge of the boundary check (String panics for a bad index whatever else is passed,
+        # e.g. also when the inserted text is empty) — except truncate's documented no-op new_len >= len
+        for bb, blk in enumerate(b.blocks):
+            for s in blk["stmts"]:
+                if s["k"] == "assign" and s["lhs"]["l"] == 0 and not s["lhs"]["p"] and s["rv"]["k"] == "aggregate" and s["rv"].get("variant_name") == "Ok":
+                    gs = guards_at(b, bb)
+                    okb = False
+                    for g in gs:
+                        if g[0] == "pred" and g[1] == "core::str::<impl str>::is_char_boundary" and g[3] is True:
+                            ct = b.term(g[4])
+                            if describe(b, b.origin_operand(ct["args"][0])) == "repr::Repr::as_str(p1)" and strip_refs(b.origin_operand(ct["args"][1])) == ("param", ip):
+                                okb = True
+                    if fn == "repr::Repr::truncate" and not okb:
+                        okb = any(g[0] == "cmp2" and ((g[1] == "Ge" and strip_refs(g[2]) == ("param", ip) and describe(b, g[3]) == "repr::Repr::len(p1)") or (g[1] == "Le" and strip_refs(g[3]) == ("param", ip) and describe(b, g[2]) == "repr::Repr::len(p1)")) for g in gs)
+                    ctx.ob(rule, fn, "ok-return-after-check:line-ord%d" % _ok_ord(b, bb), okb, line=s.get("line", 0), how="Ok result only after the index check passed",
+                           detail="%s can return Ok without `self.as_str().is_char_boundary(idx)` having been evaluated: an index String rejects (past the end / inside a character) is accepted on that path" % fn)
         if fn == "repr::Repr::truncate":
             for eb, name in effs:
                 gs = guards_at(b, eb)
                 lt = any(g[0] == "cmp2" and ((g[1] == "Lt" and strip_refs(g[2]) == ("param", ip) and describe(b, g[3]) == "repr::Repr::len(p1)") or (g[1] == "Gt" and strip_refs(g[3]) == ("param", ip) and describe(b, g[2]) == "repr::Repr::len(p1)")) for g in gs)
                 ctx.ob(rule, fn, "new_len<len-dominates:" + _eord(b, eb, effs), lt, how="truncation only when new_len < len", detail="truncate reaches %s without `new_len < len`" % name)
+
+
+def _ok_ord(b, bb):
+    n = 0
+    for i in range(bb):
+        for s in b.blocks[i]["stmts"]:
+            if s["k"] == "assign" and s["lhs"]["l"] == 0 and s["rv"]["k"] == "aggregate" and s["rv"].get("variant_name") == "Ok":
+                n += 1
+    return n
 
 
 def _ord(b, pb, pan):
